@@ -360,7 +360,59 @@ func checkStored(b bcl.Block, v reflect.Value) (problem string, skip bool) {
 	return "", false
 }
 
+// c15Deep: hand-built bindings nested deeper than the VM ever produces (17..40 levels).
+func c15Deep(c *core.Ctx, i int64, depth int, fault bool) {
+	var mkB func(d int) bcl.Block
+	mkB = func(d int) bcl.Block {
+		b := bcl.Block{Type: "lvl", Fields: map[string]any{"v": d}}
+		if d < depth {
+			b.Fields["lvl"] = mkB(d + 1)
+		} else if fault {
+			b.Fields["v"] = "not an int"
+		}
+		return b
+	}
+	var mkT func(d int) reflect.Type
+	mkT = func(d int) reflect.Type {
+		fs := []reflect.StructField{{Name: "V", Type: reflect.TypeOf(0)}}
+		if d < depth {
+			fs = append(fs, reflect.StructField{Name: "Lvl", Type: mkT(d + 1)})
+		}
+		return reflect.StructOf(fs)
+	}
+	target := reflect.New(mkT(1))
+	var err error
+	pan, stack := protect(func() { err = bcl.Bind(target.Interface(), bcl.StructBinding{Value: mkB(1)}) })
+	c.Eval(1)
+	if pan != "" {
+		c.Violation(panicSig(pan, stack), fmt.Sprintf("Bind panicked on a binding nested %d levels deep: %s", depth, pan), nil)
+		return
+	}
+	if fault != (err != nil) {
+		c.Violation("deep-binding", fmt.Sprintf("binding nested %d levels, fault at the innermost level=%v: err=%v", depth, fault, err), nil)
+		return
+	}
+	if !fault {
+		v := target.Elem()
+		for d := 1; d <= depth; d++ {
+			if int(v.Field(0).Int()) != d {
+				c.Violation("silent-drop-or-coercion", fmt.Sprintf("level %d of a %d-level binding holds %d", d, depth, v.Field(0).Int()), nil)
+				return
+			}
+			if d < depth {
+				v = v.Field(1)
+			}
+		}
+	}
+	c.Count("deep_hand_built_bindings", 1)
+	c.Nontrivial(core.Hash("deep", depth, fault))
+}
+
 func c15Case(c *core.Ctx, i int64, r *rand.Rand) {
+	if i < 60 {
+		c15Deep(c, i, 10+int(i)/2, i%2 == 1)
+		return
+	}
 	var bd bcl.Binding
 	switch r.Intn(10) {
 	case 0:
@@ -627,10 +679,10 @@ func c16FileDigest(src []byte) string {
 		lg := &mon.LockedWriter{}
 		pt := mon.NewPerturb(c16Runs*7919+int64(variant), int(c16Runs))
 		remove := pt.Install()
-		_, err := bcl.ParseFile(sc, bcl.OptLogger(lg), bcl.OptOutput(&mon.LockedWriter{}))
+		fp, err := bcl.ParseFile(sc, bcl.OptLogger(lg), bcl.OptOutput(&mon.LockedWriter{}))
 		mon.WaitQuiescent(14)
 		remove()
-		fmt.Fprintf(&b, "file%d.err=%v|", variant, err)
+		fmt.Fprintf(&b, "file%d.err=%v,prog-nil=%v,log=%x|", variant, err, fp == nil, core.Hash(lg.String()))
 	}
 	return b.String()
 }
@@ -647,6 +699,11 @@ func c16Digest(src []byte) string {
 		fmt.Fprintf(&b, "exec=%s|%s|%v|out=%s|log=%s|", canonBlocks(bl), canonBinding(bi), xerr, out.String(), lg.String())
 		d2, _, _, _ := dumpOf(p)
 		fmt.Fprintf(&b, "dump-after-exec-same=%v|", bytes.Equal(d, d2))
+		// a dump into a failing writer must not influence the next dump
+		fw := &failingWriter{limit: len(d) / 2}
+		pan2, _ := protect(func() { p.Dump(fw) })
+		d3, _, _, _ := dumpOf(p)
+		fmt.Fprintf(&b, "dump-after-failed-dump-same=%v%s|", bytes.Equal(d, d3), pan2)
 	}
 	r := Interpret(src)
 	fmt.Fprintf(&b, "interp=%s|%s|%v|%s|%s|%s|", canonBlocks(r.Blocks), canonBinding(r.Binding), r.Err, r.Out, r.Log, r.Panic)
